@@ -31,8 +31,9 @@ def join(a, b):
 class Flow(object):
     POSITIONAL_PRESERVING = ('broadcast_arrays', 'atleast_1d', 'atleast_2d')
 
-    def __init__(self, classify, on_stmt=None, refine=None, on_store=None):
+    def __init__(self, classify, on_stmt=None, refine=None, on_store=None, unpack=None):
         self.classify = classify
+        self.unpack = unpack       # optional: tags of element i of n when a value with these tags is unpacked
         self.on_stmt = on_stmt or (lambda st, state: None)
         self.refine = refine or (lambda test, state, branch: state)
         self.on_store = on_store
@@ -57,8 +58,9 @@ class Flow(object):
         if isinstance(target, ast.Name):
             state[target.id] = frozenset(tags)
         elif isinstance(target, (ast.Tuple, ast.List)):
-            for t in target.elts:
-                self.bind(t, tags | {'<unpacked>'}, state, stmt)
+            for i, t in enumerate(target.elts):
+                sub = self.unpack(tags, i, len(target.elts)) if self.unpack is not None else None
+                self.bind(t, frozenset(sub) if sub is not None else tags | {'<unpacked>'}, state, stmt)
         elif isinstance(target, ast.Starred):
             self.bind(target.value, tags, state, stmt)
         else:
